@@ -129,7 +129,12 @@ fn fqz_new_record(
         }
     }
 
-    let param = &parameters.params[x];
+    let param = parameters.params.get(x).ok_or_else(|| {
+        io::Error::new(
+            io::ErrorKind::InvalidData,
+            format!("invalid parameter block index: {x}"),
+        )
+    })?;
 
     if !param.flags().is_fixed_length() || record.rec_no == 0 {
         last_len = read_length(src, range_coder, models)?;
